@@ -354,6 +354,18 @@ example : Matrix.det (toMatrix 2 ([[0, 2], [3, 4]] : Mat (ZMod 7))) ≠ 0 := by
   have h2 : det ([[0, 2], [3, 4]] : Mat (ZMod 7)) ≠ 0 := by decide +kernel
   rw [h] at h2; exact h2
 
+/-- `inv_correct` read left to right on a concrete inverse; `SolveLeft` as `SolveRight` of the transpose;
+a consistent over-determined rank-1 system handed to `solveRight_of_image` -/
+example : toMatrix 2 ([[4, 5], [4, 0]] : Mat (ZMod 7)) = (toMatrix 2 ([[0, 2], [3, 4]] : Mat (ZMod 7)))⁻¹ :=
+  ((inv_correct ([[0, 2], [3, 4]] : Mat (ZMod 7)) (by decide) _).mp (by decide +kernel)).2.2.2
+example : solveLeft ([[1, 3], [2, 1]] : Mat (ZMod 7)) 2 [3, 2]
+    = solveRight (transpose [[1, 3], [2, 1]]) 2 [3, 2] :=
+  (solveLeft_eq_solveRight_transpose _ 2 _).2 (by decide)
+example : ∃ x, solveRight ([[1, 2], [2, 4], [3, 6]] : Mat (ZMod 7)) 2
+      (mulVec [[1, 2], [2, 4], [3, 6]] [5, 1]) = some x ∧ x.length = 2 ∧
+    mulVec ([[1, 2], [2, 4], [3, 6]] : Mat (ZMod 7)) x = mulVec [[1, 2], [2, 4], [3, 6]] [5, 1] :=
+  solveRight_of_image _ 2 [5, 1] (by decide) rfl
+
 /-! ### the executable field `Fp p`
 
 `Lemmas/FpField.lean` builds `Field (Fp p)` from the executable operations, so the theorems above
